@@ -55,11 +55,28 @@ def main(argv):
         mism, errs = coq_eval_cases(PROP, IMPORTS, 'c02case', cases, shard=(60 if tier == 'quick' else 300))
         v.obligation('correspondence: model lowering = implementation lowering (emitted instruction lists) on %d bodies' % len(cases),
                      not mism and not errs, ('%d mismatches; ' % len(mism)) + '; '.join(errs)[:600] if (mism or errs) else '')
+        # search: the mismatching bodies through the AstVm oracle on many more valuations
+        probe_found = False
+        for i in mism[:12]:
+            bits, body = src_of(texts[i])
+            pp = os.path.join(WORK, 'C02', 'probe%d.txt' % i)
+            open(pp, 'w').write(body)
+            rc, out = sh([harness_bin('c02'), 'text', pp, str(bits)], timeout=600, env={'VERIF_SEED': str(seed), 'VERIF_NVALS': '300'})
+            for l in out.splitlines():
+                if l.startswith('ORACLE-FAIL'):
+                    parts = l.split('\t')
+                    key = parts[1].split(':')[0]
+                    if v.is_known('c02-oracle:' + key): continue
+                    probe_found = True
+                    v.violation('implementation-level oracle (probe of a body on which model and implementation lower differently): ' + parts[1][:300],
+                                {'class': 'c02-oracle:' + key, 'source_text': body, 'cfgbits': bits, 'detail': parts[1]})
+                    break
+            if probe_found: break
         for i in mism[:4]:
             bits, body = src_of(texts[i])
             v.violation('model/implementation disagreement on the lowered instruction list',
                         {'class': 'c02-corr', 'case': cases[i], 'source_text': body, 'cfgbits': bits, 'broken': 'correspondence Corr.C02.model_of'},
-                        no_failing_input=not unknown_fail)
+                        no_failing_input=(not unknown_fail and not probe_found))
     if (not proofs_ok or not v.corr_ok) and not v.violations:
         v.violation('proof obligation does not check: %s' % json.dumps(v.coq_error)[:400], {'class': 'c02-proof', 'broken': v.coq_error}, no_failing_input=True)
     elif any(not o[1] for o in v.obligations) and not v.violations:
